@@ -2,7 +2,7 @@
    Only pinned statements, `exact`, vm_compute for table side conditions / examples / refutation
    witnesses, and Print Assumptions.
 
-   The theorems are about Sem/Runtime.v, the model of preamble.lua's metamethods under Lua 5.1 dispatch
+   The theorems are about Sem/Runtime.v, the model of preamble.lua's metamethods under Lua 5.3 dispatch
    (tied to the text of preamble.lua by the correspondence of tools/props/c19.py); the "structural
    definitions" seq_t / lt_t / pw2 / pw1 / pw_scalar / pw_add are in Sem/Containers.v and are defined by
    recursion on the TYPE of the operands, so every theorem quantifies over all (nested) types.
@@ -87,27 +87,29 @@ Theorem C19_le_not_gt : forall t a b, ord_ty t = true -> vty t a -> vty t b ->
   exists c, rt_lt b a = Ok c /\ rt_le a b = Ok (negb c).
 Proof. exact le_not_gt. Qed.
 
-(* the checker also lets < compare an int with a float: ints are floats *)
-Theorem C19_int_is_float : forall v, vty TInt v -> vty TFloat v.
-Proof. exact vty_int_float. Qed.
+(* the checker also lets < and > compare an int with a float: by mathematical value *)
+Theorem C19_lt_int_float : forall x q, rt_lt (VInt x) (VFloat q) = Ok (q_ltb (x # 1) q) /\
+                                       rt_lt (VFloat q) (VInt x) = Ok (q_ltb q (x # 1)).
+Proof. exact lt_int_float. Qed.
 
-(* + - * on numbers and nested tuples of numbers, / of a tuple by a tuple: element-wise *)
+(* + - * on numbers and nested tuples of numbers, / of a tuple by a tuple: element-wise
+   (ints stay ints under + - *; / gives floats; a zero divisor is outside the number model) *)
 Theorem C19_arith_pointwise : forall o t, num_ty t = true -> forall a b, vty t a -> vty t b ->
-  rt_arith o a b = pw2 (qs_op o) t a b.
+  rt_arith o a b = pw2 (spec_fi o) (spec_ff o) t a b.
 Proof. exact arith_pointwise. Qed.
 
 Theorem C19_arith_closed : forall o, o <> OpDiv -> forall t, num_ty t = true -> forall a b, vty t a -> vty t b ->
   exists r, rt_arith o a b = Ok r /\ vty t r.
 Proof. exact arith_closed. Qed.
 
-(* / of a (nested) tuple by a number *)
-Theorem C19_div_scalar : forall t, num_ty t = true -> forall a d, vty t a ->
-  rt_div a (VNum d) = pw_scalar qs_div t a d.
+(* / of a (nested) tuple by a number (int or float) of value dq *)
+Theorem C19_div_scalar : forall t, num_ty t = true -> forall a d dq, vty t a -> num_q d = Some dq ->
+  rt_div a d = pw_scalar qs_div t a dq.
 Proof. exact div_scalar_pointwise. Qed.
 
 (* unary minus.  NOTE: the type checker rejects `-(1, 2)` (Constraint::Neg admits int and float only), so
    this law of the runtime is not reachable from a Sylt program today; reported as a finding. *)
-Theorem C19_neg_pointwise : forall t, num_ty t = true -> forall a, vty t a -> rt_neg a = pw1 qs_neg t a.
+Theorem C19_neg_pointwise : forall t, num_ty t = true -> forall a, vty t a -> rt_neg a = pw1 Z.opp Qopp t a.
 Proof. exact neg_pointwise. Qed.
 
 (* + on strings concatenates; + on numeric types is element-wise *)
@@ -124,23 +126,25 @@ Definition C19_add_pointwise_statement : Prop :=
 
 Theorem C19_add_pointwise_refuted :
   exists t a b, add_ty t = true /\ vty t a /\ vty t b /\ rt_add a b = Err /\
-                pw_add t a b = Ok (VTuple [VStr "ab"; VNum (3 # 1)]).
+                pw_add t a b = Ok (VTuple [VStr "ab"; VInt 3]).
 Proof. exact add_pointwise_refuted. Qed.
 
 Theorem C19_add_pointwise_false : ~ C19_add_pointwise_statement.
 Proof. exact add_pointwise_false. Qed.
 
-(* Non-vacuity: a nested type with a blob, an enum and tuples has values, and the operators compute on them. *)
+(* Non-vacuity: a nested type with an enum, a list and tuples has values, and the operators compute on them. *)
 Example C19_example_typed :
   vty (TTuple [TInt; TTuple [TStr; TFloat]; TList (TMaybe TInt)])
-      (VTuple [VNum (1 # 1); VTuple [VStr "a, b"; VNum (1 # 2)]; VList [VVariant "Just" (VNum (2 # 1)); VVariant "None" VNil]]).
+      (VTuple [VInt 1; VTuple [VStr "a, b"; VFloat (1 # 2)]; VList [VVariant "Just" (VInt 2); VVariant "None" VNil]]).
 Proof. simpl. repeat split; eauto. exists (1 # 2). split; reflexivity. Qed.
 
 Example C19_example_ops :
-  rt_lt (VTuple [VNum (1 # 1); VTuple [VStr "a"; VNum (1 # 2)]]) (VTuple [VNum (1 # 1); VTuple [VStr "a"; VNum (2 # 3)]]) = Ok true /\
-  rt_sub (VTuple [VNum (1 # 1); VTuple [VNum (5 # 2)]]) (VTuple [VNum (3 # 1); VTuple [VNum (1 # 2)]])
-    = Ok (VTuple [VNum (-2 # 1); VTuple [VNum (2 # 1)]]) /\
-  rt_eq (VBlob [("x", VNum (1 # 1)); ("y", VStr "s")]) (VBlob [("y", VStr "s"); ("x", VNum (1 # 1))]) = true.
+  rt_lt (VTuple [VInt 1; VTuple [VStr "a"; VFloat (1 # 2)]]) (VTuple [VInt 1; VTuple [VStr "a"; VFloat (2 # 3)]]) = Ok true /\
+  rt_sub (VTuple [VInt 1; VTuple [VFloat (5 # 2)]]) (VTuple [VInt 3; VTuple [VFloat (1 # 2)]])
+    = Ok (VTuple [VInt (-2); VTuple [VFloat (2 # 1)]]) /\
+  rt_div (VTuple [VInt 1; VInt 4]) (VInt 2) = Ok (VTuple [VFloat (1 # 2); VFloat (2 # 1)]) /\
+  rt_tostring (VTuple [VFloat (1 # 2); VFloat (2 # 1); VInt 2]) = "(0.5, 2.0, 2)" /\
+  rt_eq (VBlob [("x", VInt 1); ("y", VStr "s")]) (VBlob [("y", VStr "s"); ("x", VInt 1)]) = true.
 Proof. vm_compute. repeat split; reflexivity. Qed.
 
 Print Assumptions C19_op_templates.
@@ -161,7 +165,7 @@ Print Assumptions C19_lt_irrefl.
 Print Assumptions C19_lt_trans.
 Print Assumptions C19_lt_trichotomy.
 Print Assumptions C19_le_not_gt.
-Print Assumptions C19_int_is_float.
+Print Assumptions C19_lt_int_float.
 Print Assumptions C19_arith_pointwise.
 Print Assumptions C19_arith_closed.
 Print Assumptions C19_div_scalar.
